@@ -167,6 +167,8 @@ def _real(case):
                             args[slots[0][0]] = list(ins)
                         else:
                             args[slots[0][0]] = ins[0]
+                        if order:
+                            args["Metadata"] = {"DisplayName": "on the cycle", "Note": "n"}  # every command takes Metadata; it changes nothing
                         cmds = [("T", lib[cmd], args)]
                         if shape != "self":
                             cmds.append(("P1", lib[partner[0]], dict(partner[1], InFieldName="T")))
